@@ -10,6 +10,7 @@ import (
 	"context"
 	"runtime"
 	"sync"
+	"time"
 
 	bsgetter "github.com/ipfs/boxo/bitswap/client/internal/getter"
 	"github.com/ipfs/boxo/bitswap/client/internal/notifications"
@@ -85,9 +86,52 @@ func zzvClosed(ch chan struct{}) bool {
 	}
 }
 
+// zzvCtx is the request/session context handed to the code under test in the scheduling entries: a Done
+// channel that the harness (main goroutine only) closes. The standard library's cancelCtx works too (the
+// canonical entries use it) but every Done()/Err() on it is an atomic or mutex operation, i.e. a pre-emption
+// point for the schedule exploration, which multiplies the schedules without touching the code under test.
+type zzvCtx struct {
+	done      chan struct{}
+	cancelled bool
+}
+
+func zzvNewCtx() *zzvCtx                               { return &zzvCtx{done: make(chan struct{})} }
+func (c *zzvCtx) Deadline() (time.Time, bool)          { return time.Time{}, false }
+func (c *zzvCtx) Done() <-chan struct{}                { return c.done }
+func (c *zzvCtx) Value(key any) any                    { return nil }
+func (c *zzvCtx) Err() error {
+	select {
+	case <-c.done:
+		return context.Canceled
+	default:
+		return nil
+	}
+}
+func (c *zzvCtx) cancel() {
+	if !c.cancelled {
+		c.cancelled = true
+		close(c.done)
+	}
+}
+
+// zzvMu is a mutex natively and nothing under the engine (where goroutines only switch at synchronisation
+// points, so the recorders below need no lock and should not add pre-emption points of their own).
+type zzvMu struct{ mu sync.Mutex }
+
+func (m *zzvMu) lock() {
+	if !verifrt.Symbolic() {
+		m.mu.Lock()
+	}
+}
+func (m *zzvMu) unlock() {
+	if !verifrt.Symbolic() {
+		m.mu.Unlock()
+	}
+}
+
 // zzvRec records the want / cancel-wants callbacks.
 type zzvRec struct {
-	mu        sync.Mutex
+	mu        zzvMu
 	wantCalls int
 	wantKeys  []cid.Cid
 	cwCalls   int
@@ -95,28 +139,28 @@ type zzvRec struct {
 }
 
 func (r *zzvRec) want(ctx context.Context, ks []cid.Cid) {
-	r.mu.Lock()
+	r.mu.lock()
 	r.wantCalls++
 	r.wantKeys = append(r.wantKeys, ks...)
-	r.mu.Unlock()
+	r.mu.unlock()
 }
 
 func (r *zzvRec) cwants(ks []cid.Cid) {
-	r.mu.Lock()
+	r.mu.lock()
 	r.cwCalls++
 	r.cwKeys = append(r.cwKeys, ks...)
-	r.mu.Unlock()
+	r.mu.unlock()
 }
 
 func (r *zzvRec) snapshot() (int, []cid.Cid, int, []cid.Cid) {
-	r.mu.Lock()
-	defer r.mu.Unlock()
+	r.mu.lock()
+	defer r.mu.unlock()
 	return r.wantCalls, append([]cid.Cid(nil), r.wantKeys...), r.cwCalls, append([]cid.Cid(nil), r.cwKeys...)
 }
 
 // zzvSink collects what a consumer reads from an output channel until the channel closes.
 type zzvSink struct {
-	mu   sync.Mutex
+	mu   zzvMu
 	got  []blocks.Block
 	done chan struct{}
 }
@@ -125,9 +169,9 @@ func zzvConsume(out <-chan blocks.Block) *zzvSink {
 	s := &zzvSink{done: make(chan struct{})}
 	go func() {
 		for b := range out {
-			s.mu.Lock()
+			s.mu.lock()
 			s.got = append(s.got, b)
-			s.mu.Unlock()
+			s.mu.unlock()
 		}
 		close(s.done)
 	}()
@@ -135,8 +179,8 @@ func zzvConsume(out <-chan blocks.Block) *zzvSink {
 }
 
 func (s *zzvSink) blocks() []blocks.Block {
-	s.mu.Lock()
-	defer s.mu.Unlock()
+	s.mu.lock()
+	defer s.mu.unlock()
 	return append([]blocks.Block(nil), s.got...)
 }
 
@@ -232,7 +276,14 @@ func zzvPublishBatch(notif notifications.PubSub, pool []cid.Cid, log *zzvPubLog,
 // batches (requested, unrequested, repeated) are published while a consumer drains the output channel; the
 // request context or the session context is cancelled at a symbolic point (or never, in which case the
 // harness cancels once everything is quiescent so that the run ends).
-func HarnessC37Getter() {
+func HarnessC37Getter() { zzvGetter(false) }
+
+// HarnessC37GetterSched: the same scenario under schedule exploration (pre-emptions at the synchronisation
+// points of notifications / getter / cskr-pubsub), with the harness context so that the standard library's
+// context bookkeeping does not add pre-emption points.
+func HarnessC37GetterSched() { zzvGetter(true) }
+
+func zzvGetter(light bool) {
 	if !verifrt.Symbolic() {
 		defer runtime.GOMAXPROCS(runtime.GOMAXPROCS(1))
 	}
@@ -261,9 +312,18 @@ func HarnessC37Getter() {
 	}
 
 	notif := notifications.New(false)
-	ctx, cancel := context.WithCancel(context.Background())
+	var ctx, sessctx context.Context
+	var cancel, sesscancel func()
+	if light {
+		c1, c2 := zzvNewCtx(), zzvNewCtx()
+		ctx, cancel, sessctx, sesscancel = c1, c1.cancel, c2, c2.cancel
+	} else {
+		var f1, f2 context.CancelFunc
+		ctx, f1 = context.WithCancel(context.Background())
+		sessctx, f2 = context.WithCancel(context.Background())
+		cancel, sesscancel = f1, f2
+	}
 	defer cancel()
-	sessctx, sesscancel := context.WithCancel(context.Background())
 	defer sesscancel()
 	rec := &zzvRec{}
 
@@ -334,6 +394,10 @@ func HarnessC37Getter() {
 	zzvCheckCleanup(pool, requested, log, delivered, rec, exact)
 	wantCalls, wantKeys, _, _ := rec.snapshot()
 	verifrt.Assert("C37.want-sent-once-for-the-request", wantCalls == 1 && len(wantKeys) == nk)
+	// the caller releases the request context (after a session cancellation the subscription lives until then)
+	cancel()
+	sesscancel()
+	zzvDrain()
 	notif.Shutdown()
 	verifrt.Reach("end")
 }
